@@ -68,7 +68,7 @@ _BK = backend()
 
 def canon(x):
     """canonical, world-independent form of a Klong value: nested lists + kind tags"""
-    from klongpy.core import KGChar, KGSym, KLONG_UNDEFINED
+    from klongpy.core import KGChar, KGSym, KLONG_UNDEFINED, is_char
     if isinstance(x, NP.ndarray):
         if x.ndim == 0:
             return canon(x.item())
@@ -77,7 +77,7 @@ def canon(x):
         return [canon(y) for y in x]
     if x is KLONG_UNDEFINED:
         return ("undef",)
-    if isinstance(x, KGChar):
+    if is_char(x):
         return ("c", str(x))
     if isinstance(x, KGSym):
         return ("sym", str(x))
